@@ -130,6 +130,8 @@ class _LogHandler(logging.Handler):
         msg = record.getMessage()
         if msg.startswith("Labrea: Evaluating"):
             LOG_LOG.append([_canon_msg(msg), True])
+        elif msg.startswith("pdl-effect:"):
+            LOG_LOG.append([msg, True, record.levelno])      # a LogEffect of the program (any level)
 
 
 def _canon_msg(msg):
@@ -505,6 +507,9 @@ class Graph:
             else:
                 members = {name: self.node(m) for name, m in n["members"]}
                 obj = Namespace(n["key"], members)
+        elif k == "logeffect":
+            from labrea.logging import LogEffect
+            obj = LogEffect(int(n["level"]), "pdl", "pdl-effect:" + n["msg"])
         else:
             raise ValueError(f"unknown node kind {k}")
         self.built[nid] = self.reg(obj, nid)
@@ -576,6 +581,9 @@ class Graph:
                 self.built[d["f"]] = self.reg(obj.func, d["f"])
 
     def _cb(self, nid):
+        if self.nodes[nid]["k"] == "logeffect":
+            # `labrea.logging.LogEffect(level, name, msg)` (not modelled: programs using it are oracle-only)
+            return self.node(nid)
         kind, v = self.raw_or_node(nid)
         return v
 
@@ -584,8 +592,9 @@ class Graph:
         table = [(dec(k), i) for k, i in b.get("table", [])]
 
         def cont(v):
+            # the continuation is user code: it tells `1` from `True` and `0` from `False` (type-strict table)
             for k, i in table:
-                if _eq(k, v):
+                if type(k) is type(v) and _eq(k, v):
                     return self.node(i)
             if b.get("dflt") is not None:
                 return self.node(b["dflt"])
@@ -647,7 +656,20 @@ class Graph:
             definition = ns[name]
             definition.__module__ = "pdl"
             definition.__qualname__ = name
-            obj = dataset(definition, **kwargs)
+            # the three public spellings, chosen by the dataset's number: `dataset(f, **kw)`, the decorator with
+            # arguments `dataset(**kw)(f)`, and one long-lived factory configured with a cache *callable* and reused
+            # for several datasets (the callable is asked for a cache once per dataset)
+            form = dsid % 3
+            if form == 1:
+                obj = dataset(**kwargs)(definition)
+            elif form == 2:
+                if getattr(self, "_shared_factory", None) is None:
+                    self._pending_cache = None
+                    self._shared_factory = dataset(cache=lambda: self._pending_cache)
+                self._pending_cache = kwargs.pop("cache")
+                obj = self._shared_factory(definition, **kwargs)
+            else:
+                obj = dataset(definition, **kwargs)
             fa_obj = obj.overloads.default
             self.built[o["dflt"]] = self.reg(fa_obj, o["dflt"])
             # the lifted function: Value(definition) — the model's `f` node
@@ -698,6 +720,23 @@ def _hashable(x):
     if isinstance(x, list):
         return tuple(_hashable(y) for y in x)
     return x
+
+
+def _scribble(x):
+    if isinstance(x, dict):
+        for k in list(x):
+            if isinstance(x[k], (dict, list)):
+                _scribble(x[k])
+            else:
+                x[k] = "scribbled"
+        x["scribbled-key"] = 1
+    elif isinstance(x, list):
+        for i in range(len(x)):
+            if isinstance(x[i], (dict, list)):
+                _scribble(x[i])
+            else:
+                x[i] = "scribbled"
+        x.append("scribbled")
 
 
 def _eq(a, b):
@@ -859,8 +898,10 @@ def run_eval_op(g, op):
             if name == "evaluate":
                 # both public entry points of an evaluation: `x.evaluate(o)` and the call syntax `x(o)`
                 _EVAL_COUNT[0] += 1
-                r = obj(o) if _EVAL_COUNT[0] % 3 == 0 else obj.evaluate(o)
-                r = ["ok", enc(r)]
+                rv = obj(o) if _EVAL_COUNT[0] % 3 == 0 else obj.evaluate(o)
+                r = ["ok", enc(rv)]
+                if op.get("mutate_result"):
+                    _scribble(rv)       # the caller edits what it was given, in place and at every depth
             elif name == "validate":
                 obj.validate(o)
                 r = ["ok", None]
